@@ -381,6 +381,11 @@ func addParens(t *rapid.T, n *N) *N {
 	if n.K == "bin" && (n.Op == ";") {
 		return c
 	}
+	// `x as $v` is not an expression of its own: the binding needs the pipe and the body that follow it, and
+	// brackets around it alone do not close its scope (they vanish: `(x as $v) | a | b` is `x as $v | (a | b)`)
+	if n.K == "bin" && n.Op == "as" {
+		return c
+	}
 	if rapid.IntRange(0, 3).Draw(t, "wrap") == 0 {
 		return &N{K: "paren", Kids: []*N{c}}
 	}
